@@ -5,6 +5,7 @@ import (
 	"flag"
 	"fmt"
 	"io"
+	"math/bits"
 	"os"
 	"sort"
 
@@ -120,12 +121,28 @@ func cropMP4(inMP4 *mp4.File, durationMS int, w io.Writer, ifh io.ReadSeeker) er
 	if err != nil {
 		return err
 	}
-	fmt.Printf("wrote output with endTime=%dms\n", (endTime*1000)/endTimescale)
+	fmt.Printf("wrote output with endTime=%dms\n", mulDiv(endTime, 1000, endTimescale, false))
 	return nil
 
 }
 
 // findEndTime - find closest video sync frame, or audio frame if no video
+// mulDiv returns a*b/c (rounded down, or up if roundUp) computed with a 128-bit
+// intermediate product, so that it does not overflow for large time scales.
+func mulDiv(a, b, c uint64, roundUp bool) uint64 {
+	hi, lo := bits.Mul64(a, b)
+	if roundUp {
+		var carry uint64
+		lo, carry = bits.Add64(lo, c-1, 0)
+		hi += carry
+	}
+	if hi >= c { // quotient does not fit in 64 bits
+		return ^uint64(0)
+	}
+	q, _ := bits.Div64(hi, lo, c)
+	return q
+}
+
 func findEndTime(moov *mp4.MoovBox, durationMS int) (endTime, endTimescale uint64, err error) {
 	var syncTrak *mp4.TrakBox
 	for _, trak := range moov.Traks {
@@ -239,7 +256,7 @@ func findTrakEnds(traks []*mp4.TrakBox, endTime, endTimescale uint64) (map[uint3
 		trackEndTime := endTime
 		if trackTimeScale != uint32(endTimescale) {
 			// round up so that a sample starting before endTime (but after the truncated value) is kept
-			trackEndTime = (endTime*uint64(trackTimeScale) + endTimescale - 1) / endTimescale
+			trackEndTime = mulDiv(endTime, uint64(trackTimeScale), endTimescale, true)
 		}
 		stts := stbl.Stts
 		endSampleNr, err := stts.GetSampleNrAtTime(trackEndTime)
@@ -344,7 +361,7 @@ func updateChunkOffsets(inMP4 *mp4.File, firstOffset uint64) {
 func writeUptoMdat(inMP4 *mp4.File, endTime, endTimescale uint64, w io.Writer) error {
 	pos := uint64(0)
 	mvhd := inMP4.Moov.Mvhd
-	newDur := endTime * uint64(mvhd.Timescale) / endTimescale
+	newDur := mulDiv(endTime, uint64(mvhd.Timescale), endTimescale, false)
 	mvhd.Duration = newDur
 	for _, trak := range inMP4.Moov.Traks {
 		prevDur := trak.Tkhd.Duration
